@@ -135,7 +135,7 @@ struct Run {
 	template <class TFn>
 	static void withKey(const std::string& key, TFn&& fn) {
 		if (key.empty()) throw BadOp("key");
-		if (key[0] == 's') fn(parseBytes(key.substr(1)));
+		if (key[0] == 's' || key[0] == 'c') fn(parseBytes(key.substr(1)));      // (the char-buffer form is used by the scalar requests only)
 		else if (key[0] == 'j') fn(static_cast<int32_t>(std::stol(key.substr(1))));
 		else if (key[0] == 'u') fn(static_cast<uint64_t>(std::stoull(key.substr(1))));
 		else if (key[0] == 'T') fn(tsKey(key));
@@ -215,6 +215,14 @@ void Run::objectLoop(TObj& scope) {
 			const auto eq = r.find('=');
 			const std::string key = r.substr(1, eq - 1), ty = r.substr(eq + 1);
 			if (key[0] == 's') scalar(scope, ty, parseBytes(key.substr(1)));
+			else if (key[0] == 'c') {
+				// the key lives in a fixed-size char buffer that is larger than the text (as filled by snprintf): compared as a C string
+				char buf[24] = {};
+				const std::string k = parseBytes(key.substr(1));
+				if (k.size() >= sizeof buf || k.find('\0') != std::string::npos) throw BadOp("c-key");
+				std::memcpy(buf, k.data(), k.size());
+				scalar(scope, ty, buf);
+			}
 			else if (key[0] == 'T') { const CBinTimestamp k = tsKey(key); scalar(scope, ty, k); }
 			else if (key[0] == 'j') { const int32_t k = static_cast<int32_t>(std::stol(key.substr(1))); scalar(scope, ty, k); }
 			else if (key[0] == 'u') { const uint64_t k = std::stoull(key.substr(1)); scalar(scope, ty, k); }
